@@ -611,9 +611,7 @@ def render_schemas(r, iface):
         if r.shuffle and r.rng is not None:
             r.rng.shuffle(decls)
             r.rng.shuffle(decls_b)
-        imports = "".join('<xsd:import namespace="%s"/>' % iface["namespaces"][j]["uri"] for j in range(n) if j != ns)
-        if iface.get("encoded"):
-            imports += '<xsd:import namespace="%s"/>' % ENC
+        imports = "@@IMPORTS:%d@@" % ns
         nsdecl = " ".join('xmlns:%s="%s"' % (r.prefixes[j], iface["namespaces"][j]["uri"]) for j in range(n))
         dflt = ' xmlns="%s"' % iface["namespaces"][ns]["uri"] if r.default_ns_schema else ""
         def head(f):
@@ -647,19 +645,23 @@ def _op_elements(r, iface, op, extra):
     return out
 
 
-def render(r, iface, location="http://svc.invalid/endpoint"):
-    """-> {document name: bytes}; 'main.wsdl' is the root."""
+def plain_imports(iface, ns, locate=None, only=None):
+    """The xsd:import elements of a schema block of namespace index ns; locate(j) -> schemaLocation or None;
+    only: the namespaces to import (default: all others)."""
     n = len(iface["namespaces"])
-    wns = iface["namespaces"][0]["uri"] if r.wsdl_tns_is_ns0 else WNS
-    schemas = render_schemas(r, iface)
-    nsdecl = " ".join('xmlns:%s="%s"' % (r.prefixes[j], iface["namespaces"][j]["uri"]) for j in range(n))
-    docs = {}
-    types_inner = []
-    order = list(range(n))
-    if r.shuffle and r.rng is not None:
-        r.rng.shuffle(order)
-    for ns in order:
-        types_inner += schemas[ns]
+    out = ""
+    for j in range(n):
+        if j == ns or (only is not None and j not in only):
+            continue
+        loc = locate(j) if locate else None
+        out += '<xsd:import namespace="%s"%s/>' % (iface["namespaces"][j]["uri"],
+                                                   ' schemaLocation="%s"' % loc if loc else "")
+    if iface.get("encoded"):
+        out += '<xsd:import namespace="%s"/>' % ENC
+    return out
+
+
+def wsdl_sections(r, iface, location, wns):
     msgs, ptops, bops = [], [], []
     for op in iface["ops"]:
         st = op["style"]
@@ -686,334 +688,267 @@ def render(r, iface, location="http://svc.invalid/endpoint"):
         bops.append('<wsdl:operation name="%s"><soap:operation soapAction="urn:act:%s" style="%s"/>'
                     '<wsdl:input><soap:body %s/></wsdl:input><wsdl:output><soap:body %s/></wsdl:output></wsdl:operation>'
                     % (op["name"], op["name"], style, battr, battr))
-    sections = [("types", '<wsdl:types>%s</wsdl:types>' % "".join(types_inner)),
-                ("messages", "".join(msgs)),
-                ("porttype", '<wsdl:portType name="PT">%s</wsdl:portType>' % "".join(ptops)),
-                ("binding", '<wsdl:binding name="B" type="w:PT"><soap:binding style="document" '
-                            'transport="http://schemas.xmlsoap.org/soap/http"/>%s</wsdl:binding>' % "".join(bops)),
-                ("service", '<wsdl:service name="S"><wsdl:port name="P" binding="w:B"><soap:address location="%s"/>'
-                            '</wsdl:port></wsdl:service>' % location)]
-    body = sections
+    return {"messages": "".join(msgs),
+            "porttype": '<wsdl:portType name="PT">%s</wsdl:portType>' % "".join(ptops),
+            "binding": '<wsdl:binding name="B" type="w:PT"><soap:binding style="document" '
+                       'transport="http://schemas.xmlsoap.org/soap/http"/>%s</wsdl:binding>' % "".join(bops),
+            "service": '<wsdl:service name="S"><wsdl:port name="P" binding="w:B"><soap:address location="%s"/>'
+                       '</wsdl:port></wsdl:service>' % location}
+
+
+def definitions(r, iface, wns, inner):
+    n = len(iface["namespaces"])
+    nsdecl = " ".join('xmlns:%s="%s"' % (r.prefixes[j], iface["namespaces"][j]["uri"]) for j in range(n))
+    return ('<?xml version="1.0" encoding="UTF-8"?><wsdl:definitions targetNamespace="%s" xmlns:wsdl="%s" '
+            'xmlns:w="%s" xmlns:soap="%s" xmlns:xsd="%s" %s>%s</wsdl:definitions>'
+            % (wns, WSDLNS, wns, SOAPNS, XSD, nsdecl, inner)).encode("utf-8")
+
+
+def block_ns(block):
+    import re
+    return int(re.search(r"@@IMPORTS:(\d+)@@", block).group(1))
+
+
+def render(r, iface, location="http://svc.invalid/endpoint", schemas=None):
+    """-> {document name: bytes}; 'main.wsdl' is the root (the single-document form)."""
+    n = len(iface["namespaces"])
+    wns = iface["namespaces"][0]["uri"] if r.wsdl_tns_is_ns0 else WNS
+    if schemas is None:
+        schemas = render_schemas(r, iface)
+    types_inner = []
+    order = list(range(n))
+    if r.shuffle and r.rng is not None:
+        r.rng.shuffle(order)
+    for ns in order:
+        types_inner += [b.replace("@@IMPORTS:%d@@" % ns, plain_imports(iface, ns)) for b in schemas[ns]]
+    sec = wsdl_sections(r, iface, location, wns)
+    rest = [sec["messages"], sec["porttype"], sec["binding"], sec["service"]]
     if r.shuffle and r.rng is not None:
         # WSDL 1.1 fixes types first; messages / portType / binding / service may come in any order
-        rest = sections[1:]
         r.rng.shuffle(rest)
-        body = [sections[0]] + rest
-    docs["main.wsdl"] = ('<?xml version="1.0" encoding="UTF-8"?><wsdl:definitions targetNamespace="%s" xmlns:wsdl="%s" '
-                         'xmlns:w="%s" xmlns:soap="%s" xmlns:xsd="%s" %s>%s</wsdl:definitions>'
-                         % (wns, WSDLNS, wns, SOAPNS, XSD, nsdecl, "".join(x[1] for x in body))).encode("utf-8")
-    return docs
+    return {"main.wsdl": definitions(r, iface, wns, '<wsdl:types>%s</wsdl:types>' % "".join(types_inner) + "".join(rest))}
 
 
-# ---------------------------------------------------------------- the reference: replies
+# ---------------------------------------------------------------- partitioned renderings (C12)
 
-def out_params(iface, op):
-    """The (member-like) definitions the reply's top-level nodes are matched against, with the
-    namespace each carries, as [(member, ns)]."""
-    ns0 = iface["namespaces"][0]
-    if op["style"] == "wrapped":
-        return [(p, ns0["uri"] if (p["form"] or ns0["form"]) == "qualified" else None) for p in op["out"]]
-    if op["style"] == "bare":
-        return [(dict(p, name="%s_%s" % (op["name"], p["name"])), ns0["uri"]) for p in op["out"]]
-    return [(p, None) for p in op["out"]]
-
-
-def top_value(p, outvals):
-    """('absent',) | ('nil',) | ('one', v) | ('many', [v...]) for a top-level reply member."""
-    if p["name"] not in outvals:
-        return ("absent",)
-    v = outvals[p["name"]]
-    if isinstance(v, list):
-        return ("many", v) if v else ("absent",)
-    if v is None:
-        return ("nil",) if p["nillable"] else ("absent",)
-    return ("one", v)
+def relative_to(base, target, rng):
+    """A reference to URL `target` as written inside the document at URL `base`: absolute or relative."""
+    import posixpath
+    from urllib.parse import urlsplit
+    b, t = urlsplit(base), urlsplit(target)
+    if (b.scheme, b.netloc) != (t.scheme, t.netloc) or rng.random() < 0.4 or b.scheme == "suds":
+        return target
+    rel = posixpath.relpath(t.path, posixpath.dirname(b.path))
+    return rel
 
 
-def spec_reply_nodes(iface, op, outvals):
-    """Body content (list of spec nodes) of a reply carrying `outvals` (dict out-param name -> value)."""
-    nodes = []
-    se = spec_element_enc if op["style"] == "rpcenc" else spec_element
-    for (p, ns), orig in zip(out_params(iface, op), op["out"]):
-        tv = top_value(orig, outvals)
-        if tv[0] == "many":
-            for item in tv[1]:
-                nodes.append(se(iface, p["name"], ns, p["type"], item, orig["nillable"], True))
-        elif tv[0] == "one":
-            nodes.append(se(iface, p["name"], ns, p["type"], tv[1], False, True))
-        elif tv[0] == "nil":
-            nodes.append(se(iface, p["name"], ns, p["type"], None, True, True))
-    if op["style"] == "wrapped":
-        return [{"name": [iface["namespaces"][0]["uri"], op["name"] + "Response"], "attrs": [], "text": "", "children": nodes}]
-    if op["style"] == "bare":
-        return nodes
-    return [{"name": [rpc_ns(iface), op["name"] + "Response"], "attrs": [], "text": "", "children": nodes}]
+def head_of(block):
+    return block[:block.index(">", block.index("<xsd:schema")) + 1]
 
 
-def decoded(iface, ttype, value):
-    """Normal form of the Python data a reply value denotes: dicts for objects (with '__class__'),
-    lists for repeating members, None for nil."""
-    if value is None:
-        return None
-    if ttype[0] == "b":
-        return value
-    if ttype[0] == "a":
-        return [decoded(iface, iface["arrays"][ttype[1]], x) for x in value["__array__"]]
-    key = ttype[1]
-    real = value.get("__type__", key)
-    out = {"__class__": real[1]}
-    for a, _ in attrs_of(iface, real):
-        if "_" + a["name"] in value and value["_" + a["name"]] is not None:
-            out["_" + a["name"]] = value["_" + a["name"]]
-    for m, _, in_choice in members_of(iface, real):
-        if m["name"] not in value:
-            continue
-        v = value[m["name"]]
-        if v is None and not m["nillable"]:
-            continue
-        if m["max"] == "unbounded":
-            if not isinstance(v, list):
-                v = [v]
-            if v:
-                out[m["name"]] = [decoded(iface, m["type"], x) for x in v]
-        else:
-            out[m["name"]] = decoded(iface, m["type"], v)
-    return out
+def body_of(block):
+    import re
+    inner = block[len(head_of(block)):block.rindex("</xsd:schema>")]
+    return re.sub(r"@@IMPORTS:\d+@@", "", inner)
 
 
-def unwraps_out(op):
-    ps = op["out"]
-    return op["style"] == "bare" and len(ps) == 1 and ps[0]["type"][0] == "c"
+def block_depends(b, a, prefix):
+    """Does schema block b need, at dereference time, a declaration made in block a (same namespace)?
+    (types, extension bases, group / attributeGroup / element references)"""
+    import re
+    declared = set(re.findall(r'<xsd:(?:complexType|group|attributeGroup|element|simpleType) name="([^"]+)"', a))
+    for m in re.finditer(r'(?:base|ref|type)="(?:([^":]+):)?([^"]+)"', b):
+        if (m.group(1) in (None, prefix)) and m.group(2) in declared:
+            return True
+    return False
 
 
-def spec_result(iface, op, outvals):
-    """The value an invocation returns for a reply carrying outvals."""
-    outs = op["out"]
-    names = [p["name"] for p, _ in out_params(iface, op)]
-    n_types = len(outs)
-    if unwraps_out(op):
-        # suds treats a single-part document/literal message with a complex element as a wrapper:
-        # the reply is the wrapper's content, one value per member
-        key = outs[0]["type"][1]
-        outvals = outvals.get(outs[0]["name"]) or {}
-        outs = [m for m, _, _ in members_of(iface, key)]
-        names = [m["name"] for m in outs]
-        n_types = len(outs) + len(attrs_of(iface, key))
-    def one(p):
-        v = outvals.get(p["name"])
-        if p["max"] == "unbounded":
-            if v is None:
-                v = []
-            return [decoded(iface, p["type"], x) for x in v]
-        return decoded(iface, p["type"], v)
-    if n_types == 0:
-        return None
-    if n_types == 1:
-        return one(outs[0])
-    comp = {"__class__": "reply"}
-    for p, q in zip(outs, names):
-        if top_value(p, outvals)[0] == "absent":
-            continue
-        comp[q] = one(p)
-    return comp
+def render_partitioned(r, iface, rng, location="http://svc.invalid/endpoint", schemas=None):
+    """One interface split over several documents.
+    -> (docs {url: bytes}, root url, plan description, reachable urls (set), decoys {url: bytes})"""
+    n = len(iface["namespaces"])
+    wns = iface["namespaces"][0]["uri"] if r.wsdl_tns_is_ns0 else WNS
+    if schemas is None:
+        schemas = render_schemas(r, iface)
 
+    def url_for(name):
+        if rng.random() < 0.35:
+            return "suds://%s" % name
+        return "http://docs.invalid/%s%s" % (rng.choice(["", "a/", "a/b/", "x/"]), name)
 
-def gen_outvals(rng, iface, op, nil_in_lists=False):
-    out = {}
-    for p in op["out"]:
-        v = gen_member_value(rng, iface, p, 0)
-        if v is None and (p["min"] == 0 and rng.random() < 0.5):
-            continue     # absent
-        if v is None and op["style"] != "wrapped":
-            v = gen_value(rng, iface, p["type"], 1)
-        if unwraps_out(op):
-            v = gen_value(rng, iface, p["type"], 1, allow_derived=False)
-            v = {k: x for k, x in v.items() if not k.startswith("_")}
-        out[p["name"]] = v
-    return out
-
-
-# ---------------------------------------------------------------- independent writer
-
-class Presentation:
-    def __init__(self, rng, soap12=False, default_ns=0.3, shadow=0.3, cdata=0.2, charref=0.3, comments=0.2,
-                 whitespace=0.5, fresh=0.4):
-        self.rng = rng
-        self.soap12 = soap12
-        self.default_ns = default_ns
-        self.shadow = shadow
-        self.cdata = cdata
-        self.charref = charref
-        self.comments = comments
-        self.whitespace = whitespace
-        self.fresh = fresh
-        self.counter = 0
-
-
-def plain_presentation(rng):
-    return Presentation(rng, default_ns=0, shadow=0, cdata=0, charref=0, comments=0, whitespace=0, fresh=0)
-
-
-def _esc_text(pr, s):
-    rng = pr.rng
-    if s and rng.random() < pr.cdata and "]]>" not in s:
-        k = rng.randint(0, len(s))
-        return _esc_plain(pr, s[:k]) + "<![CDATA[" + s[k:] + "]]>"
-    return _esc_plain(pr, s)
-
-
-def _esc_plain(pr, s):
-    out = []
-    for ch in s:
-        if ch in "<&>" or (pr.rng.random() < pr.charref * 0.3):
-            if ch in "<&>" and pr.rng.random() > pr.charref:
-                out.append({"<": "&lt;", "&": "&amp;", ">": "&gt;"}[ch])
-            else:
-                out.append(pr.rng.choice(["&#%d;" % ord(ch), "&#x%x;" % ord(ch)]))
-        else:
-            out.append(ch)
-    return "".join(out)
-
-
-def _esc_attr(pr, s):
-    out = []
-    for ch in s:
-        if ch in '<&>"':
-            out.append({"<": "&lt;", "&": "&amp;", ">": "&gt;", '"': "&quot;"}[ch] if pr.rng.random() > pr.charref
-                       else "&#%d;" % ord(ch))
-        elif ch in "\t\n\r":
-            out.append("&#%d;" % ord(ch))
-        else:
-            out.append(ch)
-    return "".join(out)
-
-
-def _prefix_for(pr, scope, uri, decls, allow_default):
-    """Pick a prefix (None = default namespace) that denotes uri, declaring it when needed."""
-    rng = pr.rng
-    cands = [p for p, u in scope.items() if u == uri and (p is not None or allow_default)]
-    if cands and rng.random() > pr.fresh:
-        return rng.choice(sorted(cands, key=lambda x: x or ""))
-    if allow_default and rng.random() < pr.default_ns and not any(d.startswith("xmlns=") for d in decls):
-        scope[None] = uri
-        decls.append('xmlns="%s"' % uri)
-        return None
-    if rng.random() < pr.shadow and scope:
-        others = sorted(p for p in scope if p is not None and p not in ("xml",) and scope[p] != uri)
-        if others:
-            p = rng.choice(others)
-            if not any(d.startswith('xmlns:%s=' % p) for d in decls):
-                scope[p] = uri
-                decls.append('xmlns:%s="%s"' % (p, uri))
-                return p
-    pr.counter += 1
-    p = rng.choice(["q", "ns", "a", "tns", "x"]) + str(pr.counter)
-    scope[p] = uri
-    decls.append('xmlns:%s="%s"' % (p, uri))
-    return p
-
-
-def write_node(pr, node, scope, lexical_of=None):
-    rng = pr.rng
-    scope = dict(scope)
-    decls = []
-    ns, name = node["name"]
-    if ns is None:
-        if scope.get(None) is not None:
-            scope[None] = None
-            decls.append('xmlns=""')
-        qn = name
-    else:
-        p = _prefix_for(pr, scope, ns, decls, True)
-        qn = name if p is None else "%s:%s" % (p, name)
-    attrs = []
-    # attributes are resolved after the element's own choice so shadowing cannot hit the element name
-    used = {qn.split(":")[0]} if ":" in qn else set()
-    for k, v in node["attrs"]:
-        ans, an = k
-        if ans is None:
-            aq = an
-        else:
-            while True:
-                ap = _prefix_for(pr, scope, ans, decls, False)
-                if scope.get(ap) == ans:
+    root_url = rng.choice(["suds://root.wsdl", "http://docs.invalid/svc/root.wsdl", "http://docs.invalid/root.wsdl"])
+    # where every schema block lives: ("inline",) | ("doc", url, how) with how in ximport / wimport / include
+    place = {}
+    doc_of_ns = {}
+    # which namespaces each namespace's declarations refer to
+    uses = {ns: set() for ns in range(n)}
+    for key, t in iface["types"].items():
+        if t["base"]:
+            uses[key[0]].add(t["base"][0])
+        for m, _ in flatten_particle(t["particle"]):
+            if m["type"][0] in ("c", "a"):
+                uses[key[0]].add(m["type"][1][0])
+    for akey, item in iface.get("arrays", {}).items():
+        if item[0] != "b":
+            uses[akey[0]].add(item[1][0])
+    for op in iface["ops"]:
+        for prm in op["in"] + op["out"]:
+            if prm["type"][0] in ("c", "a"):
+                uses[0].add(prm["type"][1][0])
+    # an out-of-line schema can only refer to out-of-line schemas (it names them by schemaLocation); inline
+    # schemas see everything: close the out-of-line set under "refers to"
+    external = set(ns for ns in range(n) if rng.random() < 0.6)
+    changed = True
+    while changed:
+        changed = False
+        for ns in list(external):
+            for j in uses[ns]:
+                if j not in external:
+                    external.add(j)
+                    changed = True
+    schemas = {ns: list(bl) for ns, bl in schemas.items()}
+    together = set()
+    reach_ns = {ns: set(uses[ns]) for ns in range(n)}
+    changed = True
+    while changed:
+        changed = False
+        for ns in range(n):
+            for j in list(reach_ns[ns]):
+                if not reach_ns[j] <= reach_ns[ns]:
+                    reach_ns[ns] |= reach_ns[j]
+                    changed = True
+    for ns in range(n):
+        # suds builds and dereferences every out-of-line document on its own, depth-first (known finding D35): an
+        # included part may not need declarations of a document still being loaded. So: the included part must not
+        # depend on its includer, and namespaces on an import cycle are not split by includes at all.
+        if len(schemas[ns]) == 2:
+            a_, b_ = schemas[ns]
+            cyclic = any(ns in reach_ns[j] for j in reach_ns[ns] if j != ns)
+            dep_ba, dep_ab = block_depends(b_, a_, r.prefixes[ns]), block_depends(a_, b_, r.prefixes[ns])
+            if cyclic or (dep_ba and dep_ab):
+                if head_of(a_) == head_of(b_):
+                    schemas[ns] = [a_[:a_.rindex("</xsd:schema>")] + body_of(b_) + "</xsd:schema>"]
+                else:
+                    together.add(ns)
+            elif dep_ba:
+                schemas[ns] = [b_, a_]
+    external = set(ns for ns in external if ns not in together)
+    changed = True
+    while changed:
+        changed = False
+        for ns in list(external):
+            for j in uses[ns]:
+                if j in together:
+                    external.discard(ns)      # would need an inline-only namespace: stays inline as well
+                    changed = True
                     break
-            aq = "%s:%s" % (ap, an)
-            used.add(ap)
-        if isinstance(v, dict):
-            tns, tname = v["qname"]
-            tp = _prefix_for(pr, scope, tns, decls, True)
-            val = tname if tp is None else "%s:%s" % (tp, tname)
-        elif isinstance(v, tuple):
-            val = lexical(v[1], v[2])
-        else:
-            val = v
-        attrs.append((aq, val, ans))
-    # shadowing chosen later may have rebound a prefix already used on this element: re-validate
-    def bound(q, uri, is_attr):
-        if ":" in q:
-            return scope.get(q.split(":")[0]) == uri
-        return is_attr or scope.get(None) == uri
-    if not bound(qn, ns, False) or not all(bound(a[0], a[2], True) for a in attrs):
-        return write_node(plain_presentation(rng), node, {k: v for k, v in scope.items() if k in ("xml",)} , lexical_of)
-    for a in attrs:
-        if isinstance(node["attrs"][attrs.index(a)][1], dict):
-            tns, tname = node["attrs"][attrs.index(a)][1]["qname"]
-            if not bound(a[1], tns, False):
-                return write_node(plain_presentation(rng), node, {"xml": scope.get("xml")}, lexical_of)
-    head = "<" + qn + "".join(" " + d for d in decls) + "".join(' %s="%s"' % (a[0], _esc_attr(pr, a[1])) for a in attrs)
-    t = node["text"]
-    if isinstance(t, tuple):
-        t = lexical(t[1], t[2])
-    if not node["children"] and t == "":
-        if rng.random() < 0.5:
-            return head + "/>"
-        return head + "></" + qn + ">"
-    def ws():
-        return rng.choice(["", "\n", "  ", "\n\t"]) if rng.random() < pr.whitespace else ""
-    def cm():
-        return "<!-- c -->" if rng.random() < pr.comments else ""
-    if node["children"]:
-        inner = ws() + cm()
-        for c in node["children"]:
-            inner += write_node(pr, c, scope, lexical_of) + ws() + cm()
-        return head + ">" + inner + "</" + qn + ">"
-    body = _esc_text(pr, t)
-    if rng.random() < pr.comments and len(t) > 1:
-        k = rng.randint(1, len(t) - 1)
-        body = _esc_text(pr, t[:k]) + "<!--x-->" + _esc_text(pr, t[k:])
-    return head + ">" + body + "</" + qn + ">"
+                if j not in external:
+                    external.add(j)
+                    changed = True
+        for ns in range(n):
+            if ns not in external and ns not in together and any(ns in uses[e] for e in external):
+                external.add(ns)
+                changed = True
+    for ns in range(n):
+        mode = rng.choice(["ximport", "ximport", "wimport"]) if ns in external else "inline"
+        for bi, block in enumerate(schemas[ns]):
+            if bi == 0:
+                if mode == "inline":
+                    place[(ns, bi)] = ("inline",)
+                else:
+                    u = url_for("ns%d.xsd" % ns)
+                    place[(ns, bi)] = ("doc", u, mode)
+                    doc_of_ns[ns] = u
+            else:
+                # a second block of the namespace: inline too, or included by the first block
+                import re as _re
+                used = set(m.group(1) for m in _re.finditer(r'(?:type|base|ref)="([^":]+):', block))
+                foreign = set(j for j in range(n) if j != ns and r.prefixes[j] in used)
+                if ns in together or (ns not in external and not foreign <= external):
+                    place[(ns, bi)] = ("inline",)     # an out-of-line part may only refer to out-of-line namespaces
+                elif rng.random() < 0.6:
+                    place[(ns, bi)] = ("doc", url_for("ns%d_part%d.xsd" % (ns, bi)), "include")
+                else:
+                    place[(ns, bi)] = place[(ns, 0)] if place[(ns, 0)][0] == "inline" else \
+                        ("doc", url_for("ns%d_part%d.xsd" % (ns, bi)), "include")
+    split_wsdl = rng.random() < 0.5
+    iface_url = url_for("interface.wsdl") if split_wsdl else None
+    self_import = rng.random() < 0.2
+    docs = {}
+    plan = {"root": root_url, "blocks": {}, "split_wsdl": split_wsdl, "self_import": self_import}
 
+    def fill_imports(block, ns, base_url):
+        import re as _re
+        def locate(j):
+            return relative_to(base_url, doc_of_ns[j], rng) if j in doc_of_ns else None
+        used = set(m.group(1) for m in _re.finditer(r'(?:type|base|ref)="([^":]+):', block))
+        only = set(j for j in range(n) if r.prefixes[j] in used)      # a schema imports what it uses
+        return block.replace("@@IMPORTS:%d@@" % ns, plain_imports(iface, ns, locate, only))
 
-def write_envelope(pr, body_nodes):
-    envns = "http://www.w3.org/2003/05/soap-envelope" if pr.soap12 else ENV
-    env = {"name": [envns, "Envelope"], "attrs": [], "text": "", "children": [
-        {"name": [envns, "Body"], "attrs": [], "text": "", "children": body_nodes}]}
-    if pr.rng.random() < 0.3:
-        env["children"].insert(0, {"name": [envns, "Header"], "attrs": [], "text": "", "children": []})
-    head = pr.rng.choice(['<?xml version="1.0" encoding="UTF-8"?>', "", '<?xml version="1.0"?>\n'])
-    return (head + write_node(pr, env, {"xml": "http://www.w3.org/XML/1998/namespace"})).encode("utf-8")
-
-
-# ---------------------------------------------------------------- the reference: factory objects
-
-def spec_skeleton(iface, key, path=()):
-    """What factory.create(type) holds: every member of the content model in schema order (inherited
-    first), [] for repeating members, a pre-built object for a required complex member, None for optional
-    members and leaves, nothing for choice branches; attributes under '_' names with their default."""
-    out = {"__class__": key[1]}
-    for a, _ in attrs_of(iface, key):
-        out["_" + a["name"]] = a["default"]
-    for m, decl, in_choice in members_of(iface, key):
-        if in_choice:
-            continue
-        ident = (decl, m["name"])
-        if ident in path:
-            continue            # recursion cut-off
-        if m["max"] == "unbounded":
-            out[m["name"]] = []
-        elif m["type"][0] == "b" or m["min"] == 0:
-            out[m["name"]] = None
-        else:
-            out[m["name"]] = spec_skeleton(iface, m["type"][1], path + (ident,))
-    return out
+    types_holder = iface_url or root_url      # the WSDL document that carries <types>
+    inline_blocks, wimports = [], []
+    needs_stub = []
+    for ns in range(n):
+        for bi, block in enumerate(schemas[ns]):
+            pl = place[(ns, bi)]
+            plan["blocks"]["%d.%d" % (ns, bi)] = list(pl)
+            if pl[0] == "inline":
+                text = fill_imports(block, ns, types_holder)
+                inline_blocks.append((ns, bi, text))
+            else:
+                text = fill_imports(block, ns, pl[1])
+                if pl[2] == "include" and rng.random() < 0.5:
+                    # chameleon include: the included document has no targetNamespace of its own
+                    text = text.replace(' targetNamespace="%s"' % iface["namespaces"][ns]["uri"], "", 1)
+                docs[pl[1]] = ('<?xml version="1.0" encoding="UTF-8"?>' + text).encode("utf-8")
+    # includes: the first block of the namespace includes its out-of-line parts
+    def add_includes(text, ns, base_url, is_doc=False):
+        inc = ""
+        for bi in range(1, len(schemas[ns])):
+            pl = place[(ns, bi)]
+            if pl[0] == "doc" and pl[2] == "include":
+                inc += '<xsd:include schemaLocation="%s"/>' % relative_to(base_url, pl[1], rng)
+        if self_import and is_doc and base_url.startswith("http"):
+            inc += '<xsd:include schemaLocation="%s"/>' % base_url
+        if not inc:
+            return text
+        i = text.index(">", text.index("<xsd:schema")) + 1
+        return text[:i] + inc + text[i:]
+    inline_blocks = [(ns, bi, add_includes(t, ns, types_holder) if bi == 0 else t) for ns, bi, t in inline_blocks]
+    for ns in range(n):
+        pl = place[(ns, 0)]
+        if pl[0] == "doc":
+            docs[pl[1]] = add_includes(docs[pl[1]].decode("utf-8"), ns, pl[1], True).encode("utf-8")
+            if pl[2] == "wimport":
+                wimports.append('<wsdl:import namespace="%s" location="%s"/>'
+                                % (iface["namespaces"][ns]["uri"], relative_to(types_holder, pl[1], rng)))
+            else:
+                needs_stub.append(ns)
+    # an out-of-line namespace must be reachable: some inline schema imports it with a location (every inline block
+    # imports every other namespace); when nothing is inline, a stub schema does
+    if needs_stub:
+        stub = '<xsd:schema xmlns:xsd="%s" targetNamespace="urn:stub">%s</xsd:schema>' % (
+            XSD, "".join('<xsd:import namespace="%s" schemaLocation="%s"/>'
+                         % (iface["namespaces"][j]["uri"], relative_to(types_holder, doc_of_ns[j], rng)) for j in needs_stub))
+        inline_blocks.append((-1, 0, stub))
+    if r.shuffle:
+        rng.shuffle(inline_blocks)
+    types = '<wsdl:types>%s</wsdl:types>' % "".join(t for _, _, t in inline_blocks)
+    sec = wsdl_sections(r, iface, location, wns)
+    if split_wsdl:
+        # interface document: imports, types, messages, portType; root: import of it + binding + service
+        docs[iface_url] = definitions(r, iface, wns, "".join(wimports) + types + sec["messages"] + sec["porttype"])
+        root_inner = '<wsdl:import namespace="%s" location="%s"/>' % (wns, relative_to(root_url, iface_url, rng))
+        if self_import:
+            root_inner += '<wsdl:import namespace="%s" location="%s"/>' % (wns, root_url)
+        docs[root_url] = definitions(r, iface, wns, root_inner + sec["binding"] + sec["service"])
+    else:
+        root_inner = "".join(wimports)
+        if self_import:
+            root_inner += '<wsdl:import namespace="%s" location="%s"/>' % (wns, root_url)
+        docs[root_url] = definitions(r, iface, wns, root_inner + types + sec["messages"] + sec["porttype"]
+                                     + sec["binding"] + sec["service"])
+    decoys = {"http://docs.invalid/decoy.xsd": b'<xsd:schema xmlns:xsd="%s" targetNamespace="urn:decoy"/>' % XSD.encode(),
+              "suds://decoy.wsdl": definitions(r, iface, "urn:decoy", "")}
+    plan["documents"] = sorted(docs)
+    return docs, root_url, plan, decoys
